@@ -210,10 +210,16 @@ func init() {
 			for _, sp := range []struct{ cwd, spelling, src string }{
 				{"dots", ".", "dots"}, {"dots", "./", "dots"}, {"dots", "../dots", "dots"}, {"dots", "./.", "dots"}, {"dots/sub", "..", "dots"},
 				{"", "dots", "dots"}, {"", "./dots/", "dots"}, {"dots", ".config", "dots/.config"}, {"dots", "./.config/", "dots/.config"}, {"dots/.config", ".", "dots/.config"},
+				// glob patterns relative to the working directory whose matches start with a dot / have no common directory
+				{"dots", ".e*", "dots/.e*"}, {"dots", "./.e*", "dots/.e*"}, {"dots", "*nv", "dots/*nv"}, {"dots", ".*/settings", "dots/.*/settings"}, {"dots", "s*/.keep", "dots/s*/.keep"},
+				{"dots", ".env", "dots/.env"}, {"dots", "./.env", "dots/.env"}, {"dots", "..data", "dots/..data"}, {"dots/sub", "../.env", "dots/.env"},
 			} {
 				for _, typ := range []string{"tree", ""} {
 					if typ == "" && strings.Trim(sp.spelling, "./") == "" {
 						continue // the working directory itself as a plain (globbed) source has no documented meaning
+					}
+					if typ == "tree" && (strings.ContainsAny(sp.spelling, "*") || strings.HasSuffix(sp.src, "env") || strings.HasSuffix(sp.src, "data")) {
+						continue // not directories
 					}
 					for _, dst := range []string{"/opt/app", "/opt/app/", "/"} {
 						for _, p := range []string{"deb", "rpm"} {
